@@ -38,12 +38,27 @@ def main():
     wt = a.worktree
     out = os.path.join(VERIF, "seeded", a.seed_id)
     ran = []
-    # the patch is what the worktree actually contains
-    rc, diff = sh("git diff HEAD -- src", cwd=wt)
+    # the patch is what the worktree actually contains; "-" re-evaluates a seed already filed under seeded/<id>/
+    refile = wt == "-"
+    if refile:
+        a.skip_confirm = True
+        diff = open(os.path.join(out, "patch.diff")).read()
+    else:
+        rc, diff = sh("git diff HEAD -- src", cwd=wt)
     if not diff.strip():
         print("no source change in", wt)
         return 2
     meta = {"seed_id": a.seed_id, "property": a.prop, "needs_to_manifest": a.needs, "confirmed": {}, "checks": {}}
+    if a.skip_confirm and os.path.exists(os.path.join(out, "meta.json")):
+        old = json.load(open(os.path.join(out, "meta.json")))
+        meta["confirmed"] = old.get("confirmed", {})
+        meta["needs_to_manifest"] = old.get("needs_to_manifest", a.needs)
+        ran = [l for l in old.get("what_was_run", []) if not l.startswith("git -C /repo apply")]
+        if "caught_on_arrival" in old:
+            meta["caught_on_arrival"] = old["caught_on_arrival"]
+        elif not old.get("reevaluated") and old.get("caught_by") is not None:
+            meta["caught_on_arrival"] = sorted(old["caught_by"])
+        meta["reevaluated"] = True
     demo = os.path.join(wt, "OUT", "demo", "run.sh")
     if not a.skip_confirm:
         rc, o = sh("ninja -C _build 2>&1 | tail -1", cwd=wt)
@@ -64,12 +79,13 @@ def main():
             print("NOT CONFIRMED:", json.dumps(meta["confirmed"], indent=1)[:1500])
             return 1
     os.makedirs(out, exist_ok=True)
-    open(os.path.join(out, "patch.diff"), "w").write(diff)
-    if os.path.isdir(os.path.join(out, "demo")):
-        shutil.rmtree(os.path.join(out, "demo"))
-    shutil.copytree(os.path.join(wt, "OUT", "demo"), os.path.join(out, "demo"))
-    if os.path.exists(os.path.join(wt, "OUT", "notes.md")):
-        shutil.copy(os.path.join(wt, "OUT", "notes.md"), os.path.join(out, "notes.md"))
+    if not refile:
+        open(os.path.join(out, "patch.diff"), "w").write(diff)
+        if os.path.isdir(os.path.join(out, "demo")):
+            shutil.rmtree(os.path.join(out, "demo"))
+        shutil.copytree(os.path.join(wt, "OUT", "demo"), os.path.join(out, "demo"))
+        if os.path.exists(os.path.join(wt, "OUT", "notes.md")):
+            shutil.copy(os.path.join(wt, "OUT", "notes.md"), os.path.join(out, "notes.md"))
     # run the checks against /repo with the patch applied
     rc, o = sh("git status --porcelain -- src", cwd="/repo")
     if o.strip():
